@@ -457,9 +457,9 @@ static PermissionResult fix_permissions_if_needed(std::ostream& out, const Optio
 void write_patched_result_to_file(const Patch& patch, const std::string& output_file_path, const PermissionResult& permission_result,
     std::ios::openmode mode, DeferredWriter& deferred_writer, File& patched_file, Backup* backup)
 {
-    // Ensure that parent directories exist if we are adding a file, also under a new name.
-    if (patch.operation == Operation::Add || patch.operation == Operation::Rename || patch.operation == Operation::Copy)
-        ensure_parent_directories(output_file_path);
+    // Ensure that parent directories exist if we are adding a file, also under a new name, and for
+    // a file named by --output: anything else which is written to has been read before and so is there.
+    ensure_parent_directories(output_file_path);
 
     const auto new_mode_copy = patch.new_file_mode;
 
